@@ -61,13 +61,13 @@ Proof. reflexivity. Qed.
 Lemma chain_Entry_check_step_ok sr isb rc :
   chain_Entry_check_step sr isb rc =
   (if sr =? 0 then LContinue rc else if isb sr then LBreak sr else LContinue rc, [a0 22]).
-Proof. unfold chain_Entry_check_step. cbv zeta. destruct (sr =? 0); [reflexivity|]. destruct (isb sr); reflexivity. Qed.
+Proof. unfold chain_Entry_check_step. cbv zeta. leaf_cases. Qed.
 
 (* statistic loop: OnEntryPassed unless the result is blocked, then OnEntryBlocked with the
    result's own block error; every slot is told, nothing stops the loop *)
 Lemma chain_Entry_stat_step_ok beo isb rc :
   chain_Entry_stat_step beo isb rc = (LContinue tt, [if isb rc then aZ 27 (beo rc) else a0 26]).
-Proof. unfold chain_Entry_stat_step. cbv zeta. destruct (isb rc); reflexivity. Qed.
+Proof. unfold chain_Entry_stat_step, aZ, a0. cbv zeta. leaf_cases. Qed.
 
 (* the deferred function of Entry: recover(); SetError iff something was recovered *)
 Lemma chain_Entry_recover_ok pv : chain_Entry_recover pv = if pv =? 0 then [a0 30] else [a0 30; a0 29].
@@ -79,16 +79,16 @@ Proof. unfold chain_Entry_recover. cbv zeta. leaf_cases. Qed.
    the statistic loop, which is entered with the re-read result; that result is returned.
    `len(xs) > 0` guards only skip empty loops. *)
 Definition entry_frame_spec (np nc ns : Z) (cres rc : Z) : Z * list leaf_act :=
-  let rc' := if 0 <? nc then rc else 0 in
   (cres,
    [a0 20] ++ (if 0 <? np then [a0 31] else []) ++ (if 0 <? nc then [aZ 32 0] else []) ++
-   [if rc' =? 0 then a0 23 else aZ 24 rc'] ++ [aB 25 true] ++ (if 0 <? ns then [aZ 33 cres] else [])).
+   [if 0 <? nc then (if rc =? 0 then a0 23 else aZ 24 rc) else a0 23] ++ [aB 25 true] ++
+   (if 0 <? ns then [aZ 33 cres] else [])).
 
-Lemma chain_Entry_frame_ok nc cres rc np ns :
+(* np nc ns are lengths: `len(xs) > 0` may as well be written `len(xs) != 0` *)
+Lemma chain_Entry_frame_ok nc cres rc np ns : 0 <= np -> 0 <= nc -> 0 <= ns ->
   chain_Entry_frame nc cres rc np ns = entry_frame_spec np nc ns cres rc.
 Proof.
-  unfold chain_Entry_frame, entry_frame_spec. cbv zeta.
-  destruct (0 <? np), (0 <? nc), (0 <? ns); cbn [app Z.eqb]; try destruct (rc =? 0); reflexivity.
+  intros Hnp Hnc Hns. unfold chain_Entry_frame, entry_frame_spec, a0, aZ, aB. cbv zeta. leaf_cases.
 Qed.
 
 (* EntryPassedOnPanic: nothing for a nil context or when the outcome was reported; else defer,
@@ -98,7 +98,7 @@ Lemma chain_EntryPassedOnPanic_ok ctx_nil rep cres fresh :
   chain_EntryPassedOnPanic ctx_nil rep cres fresh =
   if ctx_nil || rep then [] else
   [a0 20; aB 25 true] ++ (if cres =? 0 then [a0 34; aZ 24 fresh] else [a0 23]) ++ [a0 33].
-Proof. unfold chain_EntryPassedOnPanic. cbv zeta. destruct (ctx_nil || rep); [reflexivity|]. destruct (cres =? 0); reflexivity. Qed.
+Proof. unfold chain_EntryPassedOnPanic, a0, aZ, aB. cbv zeta. destruct ctx_nil, rep; cbn [orb negb andb]; leaf_cases. Qed.
 Lemma chain_EntryPassedOnPanic_step_ok : chain_EntryPassedOnPanic_step = (LContinue tt, [a0 26]).
 Proof. reflexivity. Qed.
 
@@ -106,7 +106,7 @@ Proof. reflexivity. Qed.
    otherwise OnCompleted of every statistic slot *)
 Lemma chain_exit_ok blocked ent ctx_nil :
   chain_exit blocked ent ctx_nil = if ctx_nil || (ent =? 0) || blocked then [] else [a0 33].
-Proof. unfold chain_exit. cbv zeta. destruct ctx_nil, (ent =? 0), blocked; reflexivity. Qed.
+Proof. unfold chain_exit, a0. cbv zeta. destruct ctx_nil, blocked; cbn [orb negb andb]; leaf_cases. Qed.
 Lemma chain_exit_step_ok : chain_exit_step = (LContinue tt, [a0 28]).
 Proof. reflexivity. Qed.
 
@@ -118,28 +118,28 @@ Proof. unfold ctx_IsBlocked. leaf_cases. Qed.
 
 (* the pool: Reset, then Put; the start time is the millisecond clock *)
 Lemma chain_RefurbishContext_ok c_nil : chain_RefurbishContext c_nil = if c_nil then [] else [a0 35; a0 36].
-Proof. unfold chain_RefurbishContext. destruct c_nil; reflexivity. Qed.
+Proof. unfold chain_RefurbishContext, a0. destruct c_nil; cbn [negb]; leaf_cases. Qed.
 Lemma chain_GetPooledContext_ok t : chain_GetPooledContext t = (1, [aZ 37 t]).
 Proof. reflexivity. Qed.
 
 (* SentinelEntry.Exit: the options are applied, a nil context returns, everything else happens
    inside the Once *)
 Lemma entry_Exit_ok ctx_nil : entry_Exit ctx_nil = if ctx_nil then [a0 40] else [a0 40; a0 41].
-Proof. unfold entry_Exit. destruct ctx_nil; reflexivity. Qed.
+Proof. unfold entry_Exit, a0. destruct ctx_nil; cbn [negb]; leaf_cases. Qed.
 (* the function run by the Once: defer first; the error of THIS exit into the context (inside
    the Once); the handlers; the chain's exit *)
 Lemma entry_Exit_once_ok err sc :
   entry_Exit_once err sc =
   [a0 20] ++ (if err =? 0 then [] else [aZ 42 err]) ++ [a0 43] ++ (if sc =? 0 then [] else [a0 45]).
-Proof. unfold entry_Exit_once. cbv zeta. destruct (err =? 0), (sc =? 0); reflexivity. Qed.
+Proof. unfold entry_Exit_once, a0, aZ. cbv zeta. leaf_cases. Qed.
 (* a handler's error does not stop the loop *)
 Lemma entry_Exit_handler_step_ok herr : entry_Exit_handler_step herr = (LContinue tt, [a0 44]).
-Proof. unfold entry_Exit_handler_step. cbv zeta. destruct (negb (herr =? 0)); reflexivity. Qed.
+Proof. unfold entry_Exit_handler_step, a0. cbv zeta. leaf_cases. Qed.
 (* its deferred function: recover, exited := 1, then the context goes back to the pool -
    whether or not something was recovered *)
 Lemma entry_Exit_deferred_ok pv sc :
   entry_Exit_deferred pv sc = [a0 30; aZ 46 1] ++ (if sc =? 0 then [] else [a0 47]).
-Proof. unfold entry_Exit_deferred. cbv zeta. destruct (negb (pv =? 0)), (sc =? 0); reflexivity. Qed.
+Proof. unfold entry_Exit_deferred, a0, aZ. cbv zeta. leaf_cases. Qed.
 
 (* api.entry.  No chain: an entry without context.  Otherwise: context from the pool, resource,
    batch count, flag, the COPY of the arguments (only if there are any), the attachments (only if
@@ -157,13 +157,11 @@ Definition api_entry_spec (args_copy args_len att_len : Z) (beo : Z -> Z) (chain
   else (e, 0, setup).
 
 Lemma api_entry_ok args_copy args_len att_len beo chain r copied ty e batch flag rty status :
+  0 <= args_len -> 0 <= att_len ->
   api_entry args_copy args_len att_len beo chain r copied ty e batch flag rty status =
   api_entry_spec args_copy args_len att_len beo chain r copied ty e batch flag rty status.
 Proof.
-  unfold api_entry, api_entry_spec. cbv zeta.
-  destruct (chain =? 0); [reflexivity|].
-  destruct (args_len =? 0), (att_len =? 0), (r =? 0); cbn [negb app]; try reflexivity;
-    destruct (status r =? 1); reflexivity.
+  intros Ha Hb. unfold api_entry, api_entry_spec, a0, aZ. cbv zeta. leaf_cases.
 Qed.
 
 (* ---------------------------------------------------------------------------------- *)
@@ -440,7 +438,7 @@ Proof.
   intros HF Hp Hpb Hr Hi. unfold gen_chain_entry, chain_entry.
   pose proof (gen_run_checks_ok res isb (x_flag x) (checks ch) HF 0 []) as H0.
   destruct (gen_run_checks res isb (x_flag x) (checks ch) 0 []) as [[[rc brk0] lg0] pan0] eqn:E0.
-  rewrite chain_Entry_frame_ok. unfold entry_frame_spec. cbv zeta.
+  rewrite chain_Entry_frame_ok by apply Nat2Z.is_nonneg. unfold entry_frame_spec.
   (* prepare loop *)
   pose proof (gen_run_preps_ok (preps ch) x []) as P1.
   pose proof (run_preps_keeps (preps ch) x []) as PF.
@@ -481,7 +479,8 @@ Proof.
   { pose proof (gen_run_checks_log res isb (x_flag x1) (checks ch) 0 [] lg1) as G. rewrite E0, E2 in G. cbn in G. inversion G; auto. }
   destruct RCE as [-> ->]. clear H0 E0.
   (* the store of the result *)
-  assert (RC0 : (if 0 <? Z.of_nat (length (checks ch)) then rc2 else 0) = rc2).
+  assert (RC0 : (if 0 <? Z.of_nat (length (checks ch)) then (if rc2 =? 0 then a0 23 else aZ 24 rc2) else a0 23) =
+                (if rc2 =? 0 then a0 23 else aZ 24 rc2)).
   { destruct (0 <? Z.of_nat (length (checks ch))) eqn:L; [reflexivity|]. apply len0 in L. rewrite L in E2. cbn in E2. inversion E2; reflexivity. }
   rewrite RC0. clear RC0.
   destruct brk as [c|].
@@ -586,10 +585,6 @@ Import Coq.Strings.String.
 Local Open Scope string_scope.
 Local Open Scope list_scope.
 Lemma chain_Entry_frame_params : LeafParams.chain_Entry_frame = "checks_len" :: "ctx_result" :: "loop2_out_0" :: "preps_len" :: "stats_len" :: nil.
-Proof. reflexivity. Qed.
-Lemma chain_Entry_check_step_params : LeafParams.chain_Entry_check_step = "check_res" :: "is_blocked" :: "ruleCheckRet_in" :: nil.
-Proof. reflexivity. Qed.
-Lemma chain_Entry_stat_step_params : LeafParams.chain_Entry_stat_step = "block_err_of" :: "is_blocked" :: "ruleCheckRet_in" :: nil.
 Proof. reflexivity. Qed.
 Lemma chain_exit_params : LeafParams.chain_exit = "ctx_blocked" :: "ctx_entry" :: "ctx_nil" :: nil.
 Proof. reflexivity. Qed.
